@@ -209,6 +209,100 @@ func c08(args []string) {
 			c.Nontrivial(r)
 		}
 	}
+	// streaming out-ports: the stream IPs are announced when a task is received; a burst of inputs must leave
+	// the streaming out-port in arrival order as well
+	nso := c.Pick(10, 50)
+	run.Parallel(nso, func(i int) {
+		root := c.CaseDir()
+		defer c.Drop(root)
+		n := 4 + i%5
+		s := &spec.Spec{Name: fmt.Sprintf("streamorder%d", i), MaxTasks: 2*n + 2, Sources: map[string]string{}}
+		src := &spec.Proc{Name: "src", Kind: spec.KFileSource}
+		for k := 0; k < n; k++ {
+			f := fmt.Sprintf("so_%02d.txt", k)
+			src.Files = append(src.Files, f)
+			s.Sources[f] = f
+		}
+		s.Procs = append(s.Procs, src, &spec.Proc{Name: "RIN", Kind: spec.KRecorder},
+			&spec.Proc{Name: "SPRO", Kind: spec.KCmd, Cmd: spec.BuildCmd("SPRO", []spec.PortDecl{{Name: "in"}}, []spec.PortDecl{{Name: "out", Stream: true}}, nil, nil, map[string]string{"size": "2000"}),
+				Outs: []*spec.Out{{Port: "out", Pattern: "so/{i:in|basename}.stream"}}},
+			&spec.Proc{Name: "ROUT", Kind: spec.KRecorder},
+			&spec.Proc{Name: "SCON", Kind: spec.KCmd, Cmd: spec.BuildCmd("SCON", []spec.PortDecl{{Name: "in"}}, []spec.PortDecl{{Name: "out"}}, nil, nil, nil),
+				Outs: []*spec.Out{{Port: "out", Pattern: "{i:in|basename}.consumed"}}})
+		s.Conns = append(s.Conns, &spec.Conn{From: "src.out", To: "RIN.in"}, &spec.Conn{From: "RIN.out", To: "SPRO.in"}, &spec.Conn{From: "SPRO.out", To: "ROUT.in"}, &spec.Conn{From: "ROUT.out", To: "SCON.in"})
+		cfg := Cfg{Buf: []int{1, 3, 128}[i%3], Procs: []int{2, 4, 8}[i%3], Sched: fmt.Sprintf("%d,300,500", i*7919+1)}
+		res := execSpec(c, root, s, cfg, nil, false, 0)
+		if res.Hang != "" {
+			if strings.HasPrefix(res.Hang, "deadlock") {
+				c.Violation("streamorder-hang", res.Hang+"\n"+clip(res.HangInfo, 800), map[string]interface{}{"spec": s, "cfg": cfg})
+			} else {
+				c.Inconclusive(res.Hang)
+			}
+			return
+		}
+		if res.Exit != 0 || !res.Returned {
+			c.Violation("streamorder-run-failed", fmt.Sprintf("exit %d: %s", res.Exit, tail(res.Output(), 400)), map[string]interface{}{"spec": s, "cfg": cfg})
+			return
+		}
+		ti := mon.Index(res.Trace)
+		var want []string
+		for _, a := range recPaths(ti, "RIN") {
+			want = append(want, "so/"+filepath.Base(a)+".stream")
+		}
+		got := recPaths(ti, "ROUT")
+		if strings.Join(want, "\x00") != strings.Join(got, "\x00") || len(got) != n {
+			c.Violation("order-not-preserved:streaming-out-port", fmt.Sprintf("inputs arrived as %v, stream IPs left as %v", recPaths(ti, "RIN"), got), map[string]interface{}{"spec": s, "cfg": cfg})
+			return
+		}
+		c.Count("streaming_order_runs", 1)
+		c.Nontrivial(fmt.Sprintf("streamorder|%d|%v", n, cfg))
+	})
+	// a bundled component as the process: FileSplitter fed several files emits the parts of each file, file after file
+	nsp := c.Pick(4, 20)
+	run.Parallel(nsp, func(i int) {
+		root := c.CaseDir()
+		defer c.Drop(root)
+		nf := 2 + i%3
+		s := &spec.Spec{Name: fmt.Sprintf("splitorder%d", i), MaxTasks: 2, Sources: map[string]string{}}
+		src := &spec.Proc{Name: "src", Kind: spec.KFileSource}
+		for k := 0; k < nf; k++ {
+			f := fmt.Sprintf("sf_%d.txt", k)
+			src.Files = append(src.Files, f)
+			s.Sources[f] = strings.Repeat(f+" line\n", 3+k+i%2)
+		}
+		s.Procs = append(s.Procs, src, &spec.Proc{Name: "RIN", Kind: spec.KRecorder}, &spec.Proc{Name: "SP", Kind: spec.KSplitter, Lines: 1 + i%3}, &spec.Proc{Name: "ROUT", Kind: spec.KRecorder})
+		s.Conns = append(s.Conns, &spec.Conn{From: "src.out", To: "RIN.in"}, &spec.Conn{From: "RIN.out", To: "SP.file"}, &spec.Conn{From: "SP.split_file", To: "ROUT.in"})
+		cfg := Cfg{Buf: []int{1, 3, 128}[i%3], Procs: 2}
+		res := execSpec(c, root, s, cfg, nil, false, 0)
+		if res.Exit != 0 || !res.Returned {
+			c.Inconclusive("splitter order run failed")
+			return
+		}
+		ti := mon.Index(res.Trace)
+		// project the emitted parts onto their input file and drop repetitions: must equal the arrival order of the files
+		var proj []string
+		lastIdx := 0
+		ordered := true
+		for _, p := range recPaths(ti, "ROUT") {
+			f := p[:strings.Index(p, ".split_")]
+			var idx int
+			fmt.Sscanf(p[strings.Index(p, ".split_")+7:], "%d", &idx)
+			if len(proj) == 0 || proj[len(proj)-1] != f {
+				proj = append(proj, f)
+				lastIdx = 0
+			}
+			if idx != lastIdx+1 {
+				ordered = false
+			}
+			lastIdx = idx
+		}
+		if strings.Join(proj, "\x00") != strings.Join(recPaths(ti, "RIN"), "\x00") || !ordered {
+			c.Violation("order-not-preserved:filesplitter", fmt.Sprintf("files arrived as %v, parts left as %v", recPaths(ti, "RIN"), recPaths(ti, "ROUT")), map[string]interface{}{"spec": s, "cfg": cfg})
+			return
+		}
+		c.Count("splitter_order_runs", 1)
+		c.Nontrivial(fmt.Sprintf("splitorder|%d|%d", nf, i))
+	})
 	run.Parallel(len(jobs), func(i int) {
 		j := jobs[i]
 		root := c.CaseDir()
